@@ -180,7 +180,7 @@ def h_accept(ctx, hrp, n):
     ctx.check(_cmp_decode(ctx, got, ref), 'accept: decode == BIP173 reference')
 
 
-def h_accept_addr(ctx, hrp, ndata, upper=False, wild=None):
+def h_accept_addr(ctx, hrp, ndata, upper=False, wild=None, wild_any=False):
     """address-length strings: concrete prefix; payload symbols symbolic (all 32^k values); checksum symbols =
     reference checksum XOR symbolic delta (so both valid and invalid checksums are reachable assignments and replay
     reproduces); optionally one arbitrary printable character at data position `wild`"""
@@ -192,7 +192,7 @@ def h_accept_addr(ctx, hrp, ndata, upper=False, wild=None):
     table = RB.CHARSET.upper() if upper else RB.CHARSET
     chars = [ctx.str_from_table(table, [v]) for v in syms]
     if wild is not None:
-        chars[wild] = ctx.text('wild', 1, 33, 126)
+        chars[wild] = ctx.text('wild', 1, 0, 0x10ffff) if wild_any else ctx.text('wild', 1, 33, 126)
     s = ctx.str_concat((hrp.upper() if upper else hrp) + '1', *chars)
     got = SA.decode(hrp, s)
     ref = RB.decode_address(ctx, hrp, s)
@@ -267,6 +267,9 @@ def instances(tier):
     out.append(dict(h='accept_addr', p=dict(hrp='bc', ndata=39, upper=True), max_seconds=1500, inc_to=300))
     for w in (0, 1, 20, 33, 38):
         out.append(dict(h='accept_addr', p=dict(hrp='bc', ndata=39, wild=w), max_seconds=1500, inc_to=300))
+    # one arbitrary code point (the whole Unicode range) inside an otherwise upper-case / lower-case address
+    for up, w in ((True, 20), (False, 5)) if tier == 'quick' else ((True, 1), (True, 20), (False, 5), (True, 36)):
+        out.append(dict(h='accept_addr', p=dict(hrp='bc', ndata=39, upper=up, wild=w, wild_any=True), max_seconds=1500, inc_to=300))
     for hrp, ver, plen in (('bc', 0, 20), ('tb', 0, 32), ('bcrt', 0, 20), ('bc', 1, 32), ('tb', 16, 2)):
         out.append(dict(h='data_class', p=dict(hrp=hrp, ver=ver, plen=plen)))
     return out
